@@ -45,6 +45,9 @@ type CheckDef struct {
 	HangIsViolation  bool
 	// NoShrinkOps keeps ops as they are when minimising (only sched/knobs shrink).
 	NoShrink bool
+	// FreshProcess: a violation permanently changes process state, so every
+	// candidate of the minimiser (and the replay) needs its own process.
+	FreshProcess bool
 }
 
 // PropDef describes one claimed property.
@@ -717,12 +720,9 @@ func parentMain(c *Ctx) int {
 			fmt.Printf("SIG %s\t%d\t%s\n", sig, vr.count, strings.ReplaceAll(trunc(vr.v.Detail, 400), "\n", " | "))
 		}
 	}
-	for i, sig := range a.violOrder {
+	reported := 0
+	for _, sig := range a.violOrder {
 		vr := a.viol[sig]
-		if i >= maxReport {
-			lines = append(lines, fmt.Sprintf("… %d further violation signatures not minimised", len(a.violOrder)-maxReport))
-			break
-		}
 		u := us[vr.unit]
 		def := pd.check(u.Check)
 		plan := def.Plan(c, u.Run)
@@ -743,6 +743,13 @@ func parentMain(c *Ctx) int {
 			continue
 		}
 		nViol++
+		reported++
+		if reported > maxReport {
+			// still a violation (exit 1), but not minimised
+			lines = append(lines, fmt.Sprintf("VIOLATION property=%s replay=(not minimised) sig=%s: %s", pd.ID, sig, strings.ReplaceAll(trunc(vr.v.Detail, 300), "\n", " | ")))
+			code = 1
+			continue
+		}
 		rf := minimise(c, srv, def, plan, vr)
 		path := filepath.Join(c.Dir, "replays", pd.ID, fmt.Sprintf("%s-%d-%d-%s.json", u.Check, c.Seed, u.Run, HS(sig)[:6]))
 		os.MkdirAll(filepath.Dir(path), 0o755)
@@ -799,7 +806,7 @@ func parentMain(c *Ctx) int {
 }
 
 var reSite = regexp.MustCompile(`(?m)^\s+(/[^\s]+\.go):(\d+)`)
-var rePanic = regexp.MustCompile(`(?m)^(panic: .*|fatal error: .*)$`)
+var rePanic = regexp.MustCompile(`(?m)^(panic: .*|fatal error: .*|WARNING: DATA RACE)$`)
 
 // crashSite extracts a stable site from a Go crash dump: the panic message
 // class and the first frame inside the repository.
@@ -985,6 +992,9 @@ func minimise(c *Ctx, srv *server, def *CheckDef, plan *Plan, vr *violRec) *Repl
 			return false
 		}
 		budget--
+		if def.FreshProcess {
+			srv.close()
+		}
 		r, crashed, tail := srv.exec(p, 90*time.Second)
 		if vr.crash {
 			return crashed && ("process-abort:"+crashSite(tail) == sig || "hang:"+crashSite(tail) == sig)
